@@ -34,6 +34,14 @@ CHECKS = {
         note="reference = ref/gto.py (closed-form solid harmonics in exact rationals, 30-node Gauss-Hermite); screened contributions (<1e-15 prefactor) are computed by the reference and added to the tolerance",
         design="DESIGN.md §2 C06",
     ),
+    "C08": dict(
+        level="fault_enumeration",
+        technique="exhaustive fault enumeration on the real dump_one/dump_many/write_input: every subset of required attributes missing, every rejection reason, every faulty-frame index, an OSError injected at every k-th write call",
+        text="Full products over formats x required-attribute subsets x allow_changes x {absent, pre-existing} target; prepare_dump rejection reasons; unselectable formats; dump_many with faulty frame 0/1/2/none/empty x list/generator; "
+        "write faults at every write call of the fault-free run (cap 200 quick / 2000 thorough); judged on exception type, preserved bytes, audit record of opens, closure of every opened file.",
+        note="iodata.api.open replaced from outside by a counting/faulting wrapper; sys.addaudithook records opens; objects are the 3-atom default case of each format",
+        design="DESIGN.md §2 C08",
+    ),
     "C09": dict(
         level="exploration",
         technique="deviation-bounded enumeration over the 13 dump formats + full product (contraction x orbital kind x target x allow_changes); deep bit-exact snapshot of a twin object vs the dumped object",
